@@ -48,6 +48,21 @@ Proof. vm_compute. reflexivity. Qed.
 Lemma lib_parse_okw : forallb (fun k => match find_class (wclasses lib) k with Some c => parse_class_ok lib c | None => false end) lib_parse_idsw = true.
 Proof. vm_compute. reflexivity. Qed.
 
+(* ... and the set of the C04 theorems: plain __init__ forms and the 2.1 Indicator one *)
+Definition lib_proved_idsi : list ustring := Eval vm_compute in proved_idsi variant_repaired lib.
+
+Lemma lib_proved_closedi : closed_oki variant_repaired lib lib_proved_idsi = true.
+Proof. vm_compute. reflexivity. Qed.
+
+Definition lib_parse_idsi : list ustring :=
+  Eval vm_compute in filter (fun k => match find_class (wclasses lib) k with Some c => parse_class_ok lib c | None => false end) lib_proved_idsi.
+
+Lemma lib_parse_subi : forallb (fun k => mem_ustr k lib_proved_idsi) lib_parse_idsi = true.
+Proof. vm_compute. reflexivity. Qed.
+
+Lemma lib_parse_oki : forallb (fun k => match find_class (wclasses lib) k with Some c => parse_class_ok lib c | None => false end) lib_parse_idsi = true.
+Proof. vm_compute. reflexivity. Qed.
+
 Lemma lib_registry_ok : registry_ok lib = true.
 Proof. vm_compute. reflexivity. Qed.
 
